@@ -194,6 +194,12 @@ func run(t *testing.T, cs Case) *ev.Verdict {
 	v.Canon = string(canon)
 	c, berr := sched.Run(t, parkPoints, cs.Sched, func(c *sched.Ctl) { body(c, cs, v) })
 	v.Trace = c.Trace()
+	if c.Prio {
+		v.Class("priority-schedule")
+	}
+	if c.Mix {
+		v.Class("uniform-decisions")
+	}
 	if c.StepLimit {
 		v.Infra = "step limit exceeded"
 	}
